@@ -309,7 +309,7 @@ def table_input(X, vt, t):
 def run(ctx, lean):
     unit_corr(ctx, lean)
     rng = ctx.rng('tables')
-    n_tables = 34 * ctx.scale
+    n_tables = 60 * ctx.scale
     deep = ctx.tier == 'thorough'
     bad = {f'corr:train({vt})': None for vt in TYPES}
     bad.update({'corr:isRegularVine(real fitted vine)': None, 'corr:edge_theta_admissible': None,
@@ -373,6 +373,8 @@ def run(ctx, lean):
                     if written < n_nodes * (n_nodes - 1):
                         ctx.count(f'{vt}: k-th tree tau has uninitialised cells')
                 picks = picks_for(vt, k, real[k], n_nodes)
+                if picks is not None:
+                    tie_stats(ctx, vt, k, tau, picks, n_nodes, v.trees[k - 1].edges if k > 0 else None)
                 if picks is None:
                     note(f'corr:train({vt})', {'d': d, 't': t, 'tree': k,
                                                'problem': 'construction order not recognisable',
@@ -411,6 +413,48 @@ def run(ctx, lean):
                         'trees': [[f'{e["L"]},{e["R"]}|{"".join(map(str, e["D"]))}' for e in t_] for t_ in real]})
     for k, b in bad.items():
         ctx.ob(k, b is None, 'tie', b or 'ok')
+
+
+def tie_stats(ctx, vt, k, tau, picks, n, prev_edges):
+    """How often the under-specified decisions were real decisions (equal keys), and which branch of the
+    direct greedy loop ran.  Statistics only."""
+    with np.errstate(all='ignore'):
+        if vt == 'center' or (vt == 'direct' and k == 0):
+            keys = np.abs(tau[:, 0]).copy()
+            keys[0] = np.nan
+            keys[np.isnan(keys)] = -10
+            chosen = [keys[p] for p in picks]
+            others = [keys[i] for i in range(n) if i not in picks]
+            tied = len(set(chosen)) < len(chosen) or any(o == chosen[-1] for o in others)
+            ctx.count(f'{vt}: sort order {"with" if tied else "without"} tied keys')
+        if vt == 'direct' and k == 0 and n >= 4:
+            m = tau.copy()
+            T1 = [picks[0], 0, picks[1]]
+            m[:, T1] = -10
+            for _ in range(2, n - 1):
+                vl, vr = np.max(m[T1[0], :]), np.max(m[T1[-1], :])
+                ctx.count('direct greedy: ' + ('valL > valR' if vl > vr else 'valL == valR' if vl == vr else 'valL < valR'))
+                if vl > vr:
+                    c = int(np.argmax(m[T1[0], :]))
+                    T1 = [c] + T1
+                else:
+                    c = int(np.argmax(m[T1[-1], :]))
+                    T1 = T1 + [c]
+                m[:, c] = -10
+        if vt == 'regular':
+            vis = {0}
+            for x, y in zip(picks[0::2], picks[1::2]):
+                cands = [(a, b) for a in vis for b in range(n) if b not in vis and b != a]
+                if prev_edges is not None:
+                    def full(a, b):
+                        ea, eb = prev_edges[a], prev_edges[b]
+                        return len({ea.L, ea.R, eb.L, eb.R} | set(ea.D) | set(eb.D))
+                    cands = [(a, b) for a, b in cands if full(a, b) == k + 2]
+                same = sum(1 for a, b in cands if abs(tau[a, b]) == abs(tau[x, y]))
+                ctx.count(f'regular: step with {"tied" if same > 1 else "unique"} minimal key')
+                if prev_edges is not None and len(cands) < len([1 for a in vis for b in range(n) if b not in vis]):
+                    ctx.count('regular: _check_constraint excluded a pair')
+                vis.add(y)
 
 
 def real_theta_ok(fam, theta):
